@@ -254,7 +254,7 @@ def main():
         Y, rows, preds, anns = [], [], [], []
         for i in range(n):
             y = np.array([s.rng.random() < 0.4 for _ in g.vocab], dtype=float)
-            row = np.array([s.rng.choice([0, 0, 1, 3, 5, 7, 9, 11, 13, 15]) / 16 for _ in g.vocab])
+            row = np.array([s.rng.choice([0, 0, 1, 3, 5, 7, 8, 8, 9, 11, 13, 15]) / 16 for _ in g.vocab])
             clip = g.clip(i)
             tags = [t for t, on in zip(g.vocab, y) if on] + ([g.other] if s.rng.random() < 0.3 else [])
             s.rng.shuffle(tags)
